@@ -20,8 +20,29 @@ let drv_dec args =
       Buffer.add_string b (Printf.sprintf "R %d | " (List.length r))) args;
   Buffer.contents b
 
+(* encseq <cmd:sid:len:seed>... : frames encoded one after the other into ONE output buffer (payload byte i = seed + i mod 256);
+   a refused frame must leave the buffer as it was. Prints the verdict per frame, then length, byte sum and FNV-1a of the buffer *)
+let drv_encseq args =
+  let verdicts = Buffer.create 64 in
+  let out = ref [] in
+  List.iter (fun tok ->
+      match String.split_on_char ':' tok with
+      | [c; sid; len; seed] ->
+        let len = int_of_string len and seed = int_of_string seed in
+        let data = List.init len (fun i -> n_of_int ((seed + i) land 255)) in
+        let f = { fcmd = cmd_of_byte (n_of_int (int_of_string c)); fsid = n_of_int (int_of_string sid); fdata = data } in
+        (match encode f with
+         | Some e -> Buffer.add_string verdicts "ok "; out := List.rev_append e !out
+         | None -> Buffer.add_string verdicts "err ")
+      | _ -> Buffer.add_string verdicts "BADTOK ") args;
+  let bytes = List.rev_map int_of_n !out in
+  let sum = List.fold_left (fun a b -> (a + b) land 0xFFFFFFFF) 0 bytes in
+  let fnv = List.fold_left (fun h b -> ((h lxor b) * 16777619) land 0xFFFFFFFF) 2166136261 bytes in
+  Printf.sprintf "%s| len=%d sum=%d fnv=%d" (Buffer.contents verdicts) (List.length bytes) sum fnv
+
 let dispatch drv args : string option =
   match drv with
   | "enc" -> Some (drv_enc args)
   | "dec" -> Some (drv_dec args)
+  | "encseq" -> Some (drv_encseq args)
   | _ -> None
